@@ -16,10 +16,31 @@
 //!          further pipeline steps from the main thread in between.
 //!
 //! Oracles are plain Rust (version arithmetic, a BTreeMap of the latest committed values);
-//! nothing is derived from the Lean model. No model op lines: everything is emitted as comments.
+//! nothing is derived from the Lean model.
+//!
+//! Model correspondence (driver command word `c05`, lean/Pdb/Model/ConcReadDriver.lean): the
+//! deterministic kinds 2, 3, 4 | 5 replay every API call as actions of the key-level interleaving
+//! LTS `Pdb.CRd.cstep` (Model/ConcRead.lean Part 1) and compare EVERY answer of `get` / `get_size`
+//! with the model's:
+//!   commit(tx)                        c05 commit set:<k>:<v> | del:<k> ...
+//!   process_commits() (commit queued) c05 process            (= pop; publish; cleanOverlay)
+//!     parked after end_record         c05 pop, c05 publish at park time; c05 cleanOverlay after the release
+//!   flush_logs()                      c05 flush
+//!   enact_logs() (one log FILE)       c05 enactRecord per KEY-LEVEL record of that file (`Pipe` tracks which
+//!                                     commits / reindex batches went into which file)
+//!     parked before end_read          c05 enactWrites at park time; c05 endRead (+ the rest of the file) after
+//!   clean_logs(), process_reindex()   nothing (index layer / file recycling)
+//!   get(k) / get_size(k)              c05 get <k> / c05 size <k>  -> none | some <token> | some <len>
+//!   reader parked at get_in_index.miss  c05 rBegin 1 k, rOverlay 1, rLog 1 before; c05 rTable 1, rEnd 1 after
+//!   Db::open (crash image or reopen)  the LTS has no reopen: c05 init + ONE transaction with the oracle's
+//!                                     expected content (commit; process; flush; enactRecord)
+//!   pipeline drained (mirror)         c05 drained -> ok enacted=<records ended> hist=<commits>  (a model stage
+//!                                     lagging behind is invisible to reads; this line pins it)
+//! Keys `k<space>_<id>`; value tokens `v<version>_<keyindex>_<len>` / `f<id>_<len>` (fillers); a value that does
+//! not decode is reported as `some CORRUPT`.  Kinds 0 | 1 (threaded) emit comments only.
 use crate::util::*;
 use parity_db::{ColumnOptions, Db, Options};
-use std::collections::BTreeMap;
+use std::collections::{BTreeMap, VecDeque};
 use std::path::Path;
 use std::sync::atomic::{AtomicBool, AtomicU64, Ordering};
 use std::sync::{Arc, Condvar, Mutex};
@@ -512,12 +533,222 @@ impl Gate {
 	}
 }
 
-fn step_all(db: &Db) -> Result<(), parity_db::Error> {
-	db.process_commits()?;
-	db.flush_logs()?;
-	db.enact_logs()?;
-	db.clean_logs()?;
-	Ok(())
+// ------------------------------------------------------------------------------------------
+// model correspondence: tokens and the mirror of the log-file structure
+
+/// model key name
+fn kname(space: u8, id: u64) -> String {
+	format!("k{}_{}", space, id)
+}
+
+/// model token of `enc(v, i, spread)`
+fn vtok(v: u64, i: usize, spread: u64) -> String {
+	format!("v{}_{}_{}", v, i, size_for(v, i, spread))
+}
+
+/// observed answer of `get` for key index `i`, decoded back to the token
+fn obs_value(got: &Result<Option<Vec<u8>>, parity_db::Error>, i: usize, spread: u64) -> String {
+	match got {
+		Ok(None) => "none".into(),
+		Ok(Some(b)) => match dec(b, i, spread) {
+			Ok(v) => format!("some v{}_{}_{}", v, i, b.len()),
+			Err(_) => "some CORRUPT".into(),
+		},
+		Err(e) => format!("err:{}", err_kind(e)),
+	}
+}
+
+fn obs_size(got: &Result<Option<u32>, parity_db::Error>) -> String {
+	match got {
+		Ok(None) => "none".into(),
+		Ok(Some(n)) => format!("some {}", n),
+		Err(e) => format!("err:{}", err_kind(e)),
+	}
+}
+
+/// observed answer for a filler key whose only legal value is `want` (token `f<id>_<len>`)
+fn obs_filler(got: &Result<Option<Vec<u8>>, parity_db::Error>, id: u64, want: &[u8]) -> String {
+	match got {
+		Ok(None) => "none".into(),
+		Ok(Some(b)) if b == want => format!("some f{}_{}", id, b.len()),
+		Ok(Some(_)) => "some CORRUPT".into(),
+		Err(e) => format!("err:{}", err_kind(e)),
+	}
+}
+
+/// Mirror of the write pipeline as far as the key-level model needs it: how many commits are
+/// queued, and which records (true: planned from a commit, false: reindex batch, no key-level
+/// counterpart) sit in the appending log file and in every flushed log file, in order.
+/// `Db::enact_logs` (stepping API) enacts all records of ONE log file.
+struct Pipe {
+	queued: usize,
+	appending: Vec<bool>,
+	files: VecDeque<Vec<bool>>,
+	parked_file: Option<Vec<bool>>,
+	/// a handle opened without replay starts with last_enacted = 1 AND first record id = 1: the
+	/// first enacted record does not move `verif_last_enacted` (only used by the mirror self-check)
+	first_record_pending: bool,
+	/// commits accepted / key-level records ended since the last `c05 init`
+	commits: u64,
+	ended: u64,
+}
+
+impl Pipe {
+	fn new(t: &mut Trace, readers: u32) -> Pipe {
+		t.op(&format!("c05 init {}", readers), "ok");
+		Pipe { queued: 0, appending: vec![], files: VecDeque::new(), parked_file: None, first_record_pending: true, commits: 0, ended: 0 }
+	}
+	/// `ops`: (model key, real key, Some((token, bytes)) | None = removal)
+	fn commit(&mut self, db: &Db, t: &mut Trace, ops: Vec<(String, [u8; 32], Option<(String, Vec<u8>)>)>) {
+		let mut line = String::from("c05 commit");
+		let mut tx: Vec<(u8, Vec<u8>, Option<Vec<u8>>)> = Vec::with_capacity(ops.len());
+		for (k, key, v) in ops {
+			match v {
+				Some((tok, bytes)) => {
+					line.push_str(&format!(" set:{}:{}", k, tok));
+					tx.push((0u8, key.to_vec(), Some(bytes)));
+				},
+				None => {
+					line.push_str(&format!(" del:{}", k));
+					tx.push((0u8, key.to_vec(), None));
+				},
+			}
+		}
+		let r = db.commit(tx);
+		t.op(&line, &match &r { Ok(()) => "ok".to_string(), Err(e) => format!("err:{}", err_kind(e)) });
+		r.unwrap();
+		self.queued += 1;
+		self.commits += 1;
+	}
+	/// the mirror says everything has reached the tables: the model must agree (catches a
+	/// model stage lagging behind, which reads alone cannot see)
+	fn drained(&mut self, t: &mut Trace) {
+		if self.queued == 0 && self.appending.iter().all(|k| !*k) && self.files.iter().all(|f| f.iter().all(|k| !*k)) && self.parked_file.is_none() {
+			t.op("c05 drained", &format!("ok enacted={} hist={}", self.ended, self.commits));
+		} else {
+			t.comment(&format!("c05 mirror: not drained: queued={} appending={:?} files={:?}", self.queued, self.appending, self.files));
+		}
+	}
+	fn process(&mut self, db: &Db, t: &mut Trace) {
+		db.process_commits().unwrap();
+		if self.queued > 0 {
+			self.queued -= 1;
+			self.appending.push(true);
+			t.op("c05 process", "ok");
+		}
+	}
+	/// the processing thread is parked after `end_record`: record published, overlay not cleaned
+	fn process_parked(&mut self, t: &mut Trace) {
+		self.queued -= 1;
+		self.appending.push(true);
+		t.op("c05 pop", "ok");
+		t.op("c05 publish", "ok");
+	}
+	fn process_resumed(&mut self, t: &mut Trace) {
+		t.op("c05 cleanOverlay", "ok");
+	}
+	fn flush(&mut self, db: &Db, t: &mut Trace) {
+		db.flush_logs().unwrap();
+		if !self.appending.is_empty() {
+			self.files.push_back(std::mem::take(&mut self.appending));
+		}
+		t.op("c05 flush", "ok");
+	}
+	fn enact(&mut self, db: &Db, t: &mut Trace, ctr: &mut Counters) {
+		let before = db.verif_last_enacted();
+		db.enact_logs().unwrap();
+		let after = db.verif_last_enacted();
+		let file = self.files.pop_front().unwrap_or_default();
+		let mut expected = file.len() as u64;
+		if self.first_record_pending && before == 1 && expected > 0 {
+			expected -= 1;
+		}
+		if !file.is_empty() {
+			self.first_record_pending = false;
+		}
+		if after - before != expected {
+			// the mirror is wrong (or the crate enacted something else than one whole file)
+			t.comment(&format!("c05 mirror: enact_logs enacted {} records, mirror expected {:?}", after - before, file));
+			ctr.inc("model.mirror_mismatch");
+		}
+		for key_level in file {
+			if key_level {
+				t.op("c05 enactRecord", "ok");
+				ctr.inc("model.enact.records");
+				self.ended += 1;
+			} else {
+				ctr.inc("model.enact.reindex_records");
+			}
+		}
+	}
+	/// the enacting thread is parked before `end_read` of the FIRST record of the next file
+	fn enact_parked(&mut self, t: &mut Trace) {
+		let file = self.files.pop_front().unwrap_or_default();
+		if !file.is_empty() {
+			self.first_record_pending = false;
+		}
+		if file.first() == Some(&true) {
+			t.op("c05 enactWrites", "ok");
+		}
+		self.parked_file = Some(file);
+	}
+	fn enact_resumed(&mut self, t: &mut Trace, ctr: &mut Counters) {
+		if let Some(file) = self.parked_file.take() {
+			for (n, key_level) in file.into_iter().enumerate() {
+				if key_level {
+					t.op(if n == 0 { "c05 endRead" } else { "c05 enactRecord" }, "ok");
+					ctr.inc("model.enact.records");
+					self.ended += 1;
+				}
+			}
+		}
+	}
+	fn clean(&mut self, db: &Db) {
+		db.clean_logs().unwrap();
+	}
+	/// a reindex batch is a log record without a key-level counterpart
+	fn reindex(&mut self, db: &Db, ctr: &mut Counters) {
+		let pre = db.verif_reindex_state();
+		db.process_reindex().unwrap();
+		let post = db.verif_reindex_state();
+		// `process_reindex` plans iff next_reindex != 0 && next_reindex <= last_enacted; it resets
+		// next_reindex to 0 exactly when it found nothing to write
+		if pre.0 != 0 && pre.0 <= pre.1 && post.0 != 0 {
+			self.appending.push(false);
+			ctr.inc("model.reindex_records");
+		}
+	}
+	fn step_all(&mut self, db: &Db, t: &mut Trace, ctr: &mut Counters) {
+		self.process(db, t);
+		self.flush(db, t);
+		self.enact(db, t, ctr);
+		self.clean(db);
+	}
+	/// `Db::open` happened (crash image or clean reopen): the key-level LTS has no such action;
+	/// start a fresh model and establish `content` (what the oracle expects) as one transaction
+	fn reopened(&mut self, t: &mut Trace, readers: u32, replayed: bool, content: Vec<(String, String)>) {
+		t.op(&format!("c05 init {}", readers), "ok");
+		self.first_record_pending = !replayed;
+		self.queued = 0;
+		self.appending.clear();
+		self.files.clear();
+		self.parked_file = None;
+		self.commits = 0;
+		self.ended = 0;
+		if content.is_empty() {
+			return
+		}
+		self.commits = 1;
+		self.ended = 1;
+		let mut line = String::from("c05 commit");
+		for (k, tok) in content {
+			line.push_str(&format!(" set:{}:{}", k, tok));
+		}
+		t.op(&line, "ok");
+		t.op("c05 process", "ok");
+		t.op("c05 flush", "ok");
+		t.op("c05 enactRecord", "ok");
+	}
 }
 
 // ------------------------------------------------------------------------------------------
@@ -531,26 +762,35 @@ fn f11(seed: u64, root: &Path, t: &mut Trace, ctr: &mut Counters, prop: &str) ->
 	t.begin_case(&format!("seed={} f11 keys={} target={} vlen={}", seed, nfill, target_pos, vlen));
 	let dir = fresh_dir(root, &format!("c05-f11-{}", seed));
 	let db = Db::open_or_create(&options(&dir, false, 1)).expect("create");
+	// model: reader 0 = the main thread's reads, reader 1 = the parked reader
+	let mut pipe = Pipe::new(t, 2);
 	let val = |id: u64| {
 		let mut v = filler_value(id);
 		v.resize(vlen.max(28), 0x33);
 		v
 	};
+	let ftok = |id: u64| format!("f{}_{}", id, vlen.max(28));
 	let mut ok = true;
 	// fill the hot chunk until the index has grown: the old table is then queued for reindexing
+	// (the filler keys are ordinary commits: they are part of the model)
 	let mut inserted = 0u64;
 	while inserted < nfill {
 		let n = 8.min(nfill - inserted);
-		db.commit((inserted..inserted + n).map(|id| (0u8, hot_key(3, id).to_vec(), Some(val(id))))).unwrap();
+		pipe.commit(
+			&db,
+			t,
+			(inserted..inserted + n).map(|id| (kname(3, id), hot_key(3, id), Some((ftok(id), val(id))))).collect(),
+		);
 		inserted += n;
-		db.process_commits().unwrap();
-		db.flush_logs().unwrap();
-		db.enact_logs().unwrap();
-		db.clean_logs().unwrap();
+		pipe.process(&db, t);
+		pipe.flush(&db, t);
+		pipe.enact(&db, t, ctr);
+		pipe.clean(&db);
 		if index_files(&dir).len() >= 2 {
 			break
 		}
 	}
+	pipe.drained(t);
 	let idx_before = index_files(&dir);
 	if idx_before.len() < 2 {
 		t.comment(&format!("f11: no reindex in progress after {} keys (index files {:?}); scenario not reached", inserted, idx_before));
@@ -559,10 +799,16 @@ fn f11(seed: u64, root: &Path, t: &mut Trace, ctr: &mut Counters, prop: &str) ->
 		return true
 	}
 	let target = hot_key(3, target_pos);
+	let tname = kname(3, target_pos);
 	let expected = val(target_pos);
-	if db.get(0, &target).unwrap() != Some(expected.clone()) {
-		t.oracle_fail(prop, "f11 setup: target key not readable while the reindex is pending");
-		ok = false;
+	{
+		let got = db.get(0, &target);
+		t.op(&format!("c05 get {}", tname), &obs_filler(&got, target_pos, &expected));
+		ctr.inc("model.reads");
+		if got.unwrap() != Some(expected.clone()) {
+			t.oracle_fail(prop, "f11 setup: target key not readable while the reindex is pending");
+			ok = false;
+		}
 	}
 	let gate = Gate::new("get_in_index.miss");
 	gate.install();
@@ -583,7 +829,12 @@ fn f11(seed: u64, root: &Path, t: &mut Trace, ctr: &mut Counters, prop: &str) ->
 		});
 		parked = gate.wait_parked(5000);
 		if parked {
-			// the reader has looked into the current index and missed; now finish the reindex
+			// the reader holds the commit-overlay read lock, missed the commit overlay and has looked into
+			// the current index (through the log overlay) and missed: key level = before the table read
+			t.op(&format!("c05 rBegin 1 {}", tname), "ok");
+			t.op("c05 rOverlay 1", "ok");
+			t.op("c05 rLog 1", "ok");
+			// now finish the reindex (index layer only: no key-level action)
 			let done = Arc::new(AtomicBool::new(false));
 			let d2 = done.clone();
 			let dir2 = dir.clone();
@@ -617,6 +868,10 @@ fn f11(seed: u64, root: &Path, t: &mut Trace, ctr: &mut Counters, prop: &str) ->
 	if !parked {
 		t.comment("f11: reader did not reach the yield point (key found in the current index); scenario not reached");
 		ctr.inc("f11.not_reached");
+		if let Some(r) = &reader_result {
+			t.op(&format!("c05 get {}", tname), &obs_filler(r, target_pos, &expected));
+			ctr.inc("model.reads");
+		}
 	} else {
 		ctr.inc("f11.reader_parked");
 		ctr.inc(if stepper_blocked { "f11.drop_waited_for_reader" } else { "f11.drop_completed_while_parked" });
@@ -624,6 +879,12 @@ fn f11(seed: u64, root: &Path, t: &mut Trace, ctr: &mut Counters, prop: &str) ->
 			"f11: index files before={:?} after={:?} drop blocked by parked reader={}",
 			idx_before, idx_after, stepper_blocked
 		));
+		if let Some(r) = &reader_result {
+			t.op("c05 rTable 1", "ok");
+			t.op("c05 rEnd 1", &obs_filler(r, target_pos, &expected));
+			ctr.inc("model.reads");
+			ctr.inc("model.reads.parked_reader");
+		}
 		match reader_result {
 			Some(Ok(Some(v))) if v == expected => ctr.inc("f11.key_found"),
 			Some(Ok(None)) => {
@@ -643,9 +904,26 @@ fn f11(seed: u64, root: &Path, t: &mut Trace, ctr: &mut Counters, prop: &str) ->
 		}
 	}
 	// the key is there for a fresh read in any case
-	if db.get(0, &target).unwrap() != Some(expected) {
-		t.oracle_fail(prop, "f11: target key not readable after the reindex completed");
-		ok = false;
+	{
+		let got = db.get(0, &target);
+		t.op(&format!("c05 get {}", tname), &obs_filler(&got, target_pos, &expected));
+		ctr.inc("model.reads");
+		if got.unwrap() != Some(expected) {
+			t.oracle_fail(prop, "f11: target key not readable after the reindex completed");
+			ok = false;
+		}
+	}
+	// a few more keys through the model: the first, the last and one in the middle
+	for id in [0, inserted / 2, inserted - 1] {
+		let got = db.get(0, &hot_key(3, id));
+		let size = db.get_size(0, &hot_key(3, id));
+		t.op(&format!("c05 get {}", kname(3, id)), &obs_filler(&got, id, &val(id)));
+		t.op(&format!("c05 size {}", kname(3, id)), &obs_size(&size));
+		ctr.add("model.reads", 2);
+		if got.ok().flatten() != Some(val(id)) || size.ok().flatten() != Some(val(id).len() as u32) {
+			t.oracle_fail(prop, &format!("f11: filler key {} not readable after the reindex completed", id));
+			ok = false;
+		}
 	}
 	if idx_after.len() != 1 {
 		t.comment(&format!("f11: reindex did not complete: {:?}", idx_after));
@@ -668,15 +946,19 @@ fn handover(seed: u64, root: &Path, t: &mut Trace, ctr: &mut Counters, prop: &st
 	t.begin_case(&format!("seed={} handover keys={} rounds={}", seed, nkeys, rounds));
 	let dir = fresh_dir(root, &format!("c05-ho-{}", seed));
 	let db = Db::open_or_create(&options(&dir, false, 1)).expect("create");
+	let mut pipe = Pipe::new(t, 1);
 	let keys: Vec<[u8; 32]> = (0..nkeys).map(|i| hot_key(4, i as u64)).collect();
 	let mut oracle: BTreeMap<usize, Option<u64>> = BTreeMap::new(); // key -> latest committed version
 	let mut ok = true;
 	let mut v = 0u64;
-	let mut check = |db: &Db, oracle: &BTreeMap<usize, Option<u64>>, what: &str, t: &mut Trace, ctr: &mut Counters| -> bool {
+	let check = |db: &Db, oracle: &BTreeMap<usize, Option<u64>>, what: &str, t: &mut Trace, ctr: &mut Counters| -> bool {
 		let mut good = true;
 		for i in 0..nkeys {
 			let want = oracle.get(&i).cloned().flatten().map(|w| enc(w, i, spread));
-			let got = db.get(0, &keys[i]).unwrap();
+			let got = db.get(0, &keys[i]);
+			t.op(&format!("c05 get {}", kname(4, i as u64)), &obs_value(&got, i, spread));
+			ctr.inc("model.reads");
+			let got = got.unwrap();
 			ctr.inc("handover.reads");
 			if got != want {
 				t.oracle_fail(
@@ -689,13 +971,18 @@ fn handover(seed: u64, root: &Path, t: &mut Trace, ctr: &mut Counters, prop: &st
 		good
 	};
 	// one transaction: every key gets the next version, one random key is removed now and then
-	let mut commit = |db: &Db, oracle: &mut BTreeMap<usize, Option<u64>>, rng: &mut Rng, v: &mut u64| {
+	let commit = |db: &Db, oracle: &mut BTreeMap<usize, Option<u64>>, rng: &mut Rng, v: &mut u64, pipe: &mut Pipe, t: &mut Trace| {
 		*v += 1;
 		let del = if rng.chance(1, 3) { Some(rng.below(nkeys as u64) as usize) } else { None };
-		let tx: Vec<(u8, Vec<u8>, Option<Vec<u8>>)> = (0..nkeys)
-			.map(|i| (0u8, keys[i].to_vec(), if Some(i) == del { None } else { Some(enc(*v, i, spread)) }))
-			.collect();
-		db.commit(tx).unwrap();
+		pipe.commit(
+			db,
+			t,
+			(0..nkeys)
+				.map(|i| {
+					(kname(4, i as u64), keys[i], if Some(i) == del { None } else { Some((vtok(*v, i, spread), enc(*v, i, spread))) })
+				})
+				.collect(),
+		);
 		for i in 0..nkeys {
 			oracle.insert(i, if Some(i) == del { None } else { Some(*v) });
 		}
@@ -703,13 +990,13 @@ fn handover(seed: u64, root: &Path, t: &mut Trace, ctr: &mut Counters, prop: &st
 	for round in 0..rounds {
 		let which = rng.below(2);
 		let point = if which == 0 { "process_commits.after_end_record" } else { "enact_logs.before_end_read" };
-		commit(&db, &mut oracle, &mut rng, &mut v);
+		commit(&db, &mut oracle, &mut rng, &mut v, &mut pipe, t);
 		if rng.chance(1, 2) {
-			commit(&db, &mut oracle, &mut rng, &mut v);
+			commit(&db, &mut oracle, &mut rng, &mut v, &mut pipe, t);
 		}
 		if which == 1 {
-			db.process_commits().unwrap();
-			db.flush_logs().unwrap();
+			pipe.process(&db, t);
+			pipe.flush(&db, t);
 		}
 		let gate = Gate::new(point);
 		gate.install();
@@ -723,24 +1010,30 @@ fn handover(seed: u64, root: &Path, t: &mut Trace, ctr: &mut Counters, prop: &st
 				PARK_ME.with(|p| p.set(false));
 				r
 			});
-			if gate.wait_parked(5000) {
+			let parked = gate.wait_parked(5000);
+			if parked {
 				ctr.inc(if which == 0 { "handover.parked.after_end_record" } else { "handover.parked.before_end_read" });
+				if which == 0 {
+					pipe.process_parked(t);
+				} else {
+					pipe.enact_parked(t);
+				}
 				ok &= check(&db, &oracle, &format!("round {} parked at {}", round, point), t, ctr);
 				// more traffic while the window is open
-				commit(&db, &mut oracle, &mut rng, &mut v);
+				commit(&db, &mut oracle, &mut rng, &mut v, &mut pipe, t);
 				ok &= check(&db, &oracle, &format!("round {} parked at {} + commit", round, point), t, ctr);
 				if which == 0 && extra > 0 {
 					// the published record travels on to the tables while its commit-overlay
 					// entries are still there (stale hit path)
-					db.flush_logs().unwrap();
-					db.enact_logs().unwrap();
-					db.clean_logs().unwrap();
+					pipe.flush(&db, t);
+					pipe.enact(&db, t, ctr);
+					pipe.clean(&db);
 					ctr.inc("handover.enacted_before_clean_overlay");
 					ok &= check(&db, &oracle, &format!("round {} enacted before clean_overlay", round), t, ctr);
 				}
 				if which == 1 && extra > 0 {
 					// the next commit is planned against (log overlay, half-ended record, tables)
-					db.process_commits().unwrap();
+					pipe.process(&db, t);
 					ctr.inc("handover.planned_before_end_read");
 					ok &= check(&db, &oracle, &format!("round {} planned before end_read", round), t, ctr);
 				}
@@ -749,16 +1042,43 @@ fn handover(seed: u64, root: &Path, t: &mut Trace, ctr: &mut Counters, prop: &st
 			}
 			gate.release();
 			worker.join().unwrap().unwrap();
+			if parked {
+				if which == 0 {
+					pipe.process_resumed(t);
+				} else {
+					pipe.enact_resumed(t, ctr);
+				}
+			} else if which == 0 {
+				// the worker ran `process_commits` to its end
+				if pipe.queued > 0 {
+					pipe.queued -= 1;
+					pipe.appending.push(true);
+					t.op("c05 process", "ok");
+				}
+			} else {
+				// the worker enacted one whole file
+				pipe.enact_parked(t);
+				pipe.enact_resumed(t, ctr);
+			}
 		});
 		parity_db::verif::set_yield_hook(None);
 		ok &= check(&db, &oracle, &format!("round {} resumed", round), t, ctr);
 		for _ in 0..3 {
-			step_all(&db).unwrap();
+			pipe.step_all(&db, t, ctr);
 		}
 		ok &= check(&db, &oracle, &format!("round {} drained", round), t, ctr);
+		pipe.drained(t);
 	}
 	drop(db);
 	let db = Db::open(&options(&dir, false, 1)).expect("reopen");
+	pipe.reopened(
+		t,
+		1,
+		false,
+		(0..nkeys)
+			.filter_map(|i| oracle.get(&i).cloned().flatten().map(|w| (kname(4, i as u64), vtok(w, i, spread))))
+			.collect(),
+	);
 	ok &= check(&db, &oracle, "reopened", t, ctr);
 	drop(db);
 	let _ = std::fs::remove_dir_all(&dir);
@@ -775,6 +1095,8 @@ fn handover(seed: u64, root: &Path, t: &mut Trace, ctr: &mut Counters, prop: &st
 // keys and steps the pipeline one call at a time, reading every key after every call: every read
 // must return the LAST committed version whatever stage the transactions are in.
 
+const DQ_FILLERS: u64 = 70;
+
 fn deepqueue(seed: u64, root: &Path, t: &mut Trace, ctr: &mut Counters, prop: &str) -> bool {
 	let mut rng = Rng::new(seed);
 	let nkeys = rng.range(2, 6) as usize;
@@ -783,18 +1105,30 @@ fn deepqueue(seed: u64, root: &Path, t: &mut Trace, ctr: &mut Counters, prop: &s
 	t.begin_case(&format!("seed={} deepqueue keys={} spread={} divergence={}", seed, nkeys, spread, if via_crash { "replay" } else { "reindex" }));
 	let dir = fresh_dir(root, &format!("c05-dq-{}", seed));
 	let mut db = Db::open_or_create(&options(&dir, false, 1)).expect("create");
+	let mut pipe = Pipe::new(t, 1);
 	let keys: Vec<[u8; 32]> = (0..nkeys).map(|i| hot_key(5, i as u64)).collect();
 	let mut v = 0u64;
 	let mut ok = true;
-	let mut bump = |db: &Db, v: &mut u64| {
+	let bump = |db: &Db, v: &mut u64, pipe: &mut Pipe, t: &mut Trace| {
 		*v += 1;
-		db.commit((0..nkeys).map(|i| (0u8, keys[i].to_vec(), Some(enc(*v, i, spread))))).unwrap();
+		pipe.commit(
+			db,
+			t,
+			(0..nkeys).map(|i| (kname(5, i as u64), keys[i], Some((vtok(*v, i, spread), enc(*v, i, spread))))).collect(),
+		);
 	};
-	let check = |db: &Db, v: u64, what: &str, t: &mut Trace, ctr: &mut Counters| -> bool {
+	// filler keys exist in the model too (reindex divergence only); one of them is read per check
+	let mut filler_cursor: Option<u64> = None;
+	let mut check = |db: &Db, v: u64, what: &str, t: &mut Trace, ctr: &mut Counters, fillers: bool| -> bool {
 		let mut good = true;
 		for i in 0..nkeys {
-			let got = db.get(0, &keys[i]).unwrap();
-			let size = db.get_size(0, &keys[i]).unwrap();
+			let got = db.get(0, &keys[i]);
+			let size = db.get_size(0, &keys[i]);
+			t.op(&format!("c05 get {}", kname(5, i as u64)), &obs_value(&got, i, spread));
+			t.op(&format!("c05 size {}", kname(5, i as u64)), &obs_size(&size));
+			ctr.add("model.reads", 2);
+			let got = got.unwrap();
+			let size = size.unwrap();
 			ctr.inc("deepqueue.reads");
 			let want = enc(v, i, spread);
 			if got.as_ref() != Some(&want) || size != Some(want.len() as u32) {
@@ -802,6 +1136,18 @@ fn deepqueue(seed: u64, root: &Path, t: &mut Trace, ctr: &mut Counters, prop: &s
 					prop,
 					&format!("deepqueue [{}]: key {} expected version {} got {:?} (size {:?})", what, i, v, got.as_ref().map(|b| dec(b, i, spread)), size),
 				);
+				good = false;
+			}
+		}
+		if fillers {
+			let id = filler_cursor.map_or(0, |c| (c + 13) % DQ_FILLERS);
+			filler_cursor = Some(id);
+			let got = db.get(0, &hot_key(6, id));
+			t.op(&format!("c05 get {}", kname(6, id)), &obs_filler(&got, id, &filler_value(id)));
+			ctr.inc("model.reads");
+			ctr.inc("deepqueue.filler_reads");
+			if got.ok().flatten() != Some(filler_value(id)) {
+				t.oracle_fail(prop, &format!("deepqueue [{}]: filler key {} not readable", what, id));
 				good = false;
 			}
 		}
@@ -813,10 +1159,10 @@ fn deepqueue(seed: u64, root: &Path, t: &mut Trace, ctr: &mut Counters, prop: &s
 		// the commit counter of the new handle starts again
 		let d = rng.range(1, 3);
 		for _ in 0..d {
-			bump(&db, &mut v);
-			db.process_commits().unwrap();
+			bump(&db, &mut v, &mut pipe, t);
+			pipe.process(&db, t);
 		}
-		db.flush_logs().unwrap();
+		pipe.flush(&db, t);
 		let img = root.join(format!("c05-dq-{}-img", seed));
 		let _ = std::fs::remove_dir_all(&img);
 		copy_dir(&dir, &img);
@@ -825,65 +1171,74 @@ fn deepqueue(seed: u64, root: &Path, t: &mut Trace, ctr: &mut Counters, prop: &s
 		std::fs::rename(&img, &dir).unwrap();
 		let _ = std::fs::remove_file(dir.join("lock"));
 		db = Db::open(&options(&dir, false, 1)).expect("recovery");
+		// the flushed records are replayed: the recovered content is version v of every key
+		pipe.reopened(t, 1, true, (0..nkeys).map(|i| (kname(5, i as u64), vtok(v, i, spread))).collect());
 		ctr.inc("deepqueue.divergence.replay");
 	} else {
 		// 65+ keys of one index chunk: growth; every process_reindex call that finds work writes a record
-		bump(&db, &mut v);
-		db.commit((0..70u64).map(|id| (0u8, hot_key(6, id).to_vec(), Some(filler_value(id))))).unwrap();
+		bump(&db, &mut v, &mut pipe, t);
+		pipe.commit(
+			&db,
+			t,
+			(0..DQ_FILLERS)
+				.map(|id| (kname(6, id), hot_key(6, id), Some((format!("f{}_{}", id, filler_value(id).len()), filler_value(id)))))
+				.collect(),
+		);
 		for _ in 0..3 {
-			step_all(&db).unwrap();
+			pipe.step_all(&db, t, ctr);
 		}
 		let batches = rng.range(1, 3);
 		for _ in 0..batches {
-			db.process_reindex().unwrap();
+			pipe.reindex(&db, ctr);
 			if rng.chance(1, 2) {
-				db.flush_logs().unwrap();
-				db.enact_logs().unwrap();
-				db.clean_logs().unwrap();
+				pipe.flush(&db, t);
+				pipe.enact(&db, t, ctr);
+				pipe.clean(&db);
 			}
 		}
 		ctr.inc("deepqueue.divergence.reindex");
 	}
-	ok &= check(&db, v, "after divergence", t, ctr);
+	let fillers = !via_crash;
+	ok &= check(&db, v, "after divergence", t, ctr, fillers);
 	// phase 2: deep queue on the same keys, one pipeline call at a time
 	let rounds = rng.range(1, 3);
 	for round in 0..rounds {
 		let depth = rng.range(3, 12);
 		for _ in 0..depth {
-			bump(&db, &mut v);
+			bump(&db, &mut v, &mut pipe, t);
 		}
-		ok &= check(&db, v, &format!("round {} queued {}", round, depth), t, ctr);
+		ok &= check(&db, v, &format!("round {} queued {}", round, depth), t, ctr, fillers);
 		let mut processed = 0;
 		let mut guard = 0;
 		while processed < depth && guard < 200 {
 			guard += 1;
 			match rng.below(10) {
 				0..=5 => {
-					db.process_commits().unwrap();
+					pipe.process(&db, t);
 					processed += 1;
 					ctr.inc("deepqueue.process");
-					ok &= check(&db, v, &format!("round {} processed {}/{}", round, processed, depth), t, ctr);
+					ok &= check(&db, v, &format!("round {} processed {}/{}", round, processed, depth), t, ctr, fillers);
 				},
 				6 => {
-					db.flush_logs().unwrap();
-					ok &= check(&db, v, &format!("round {} flush", round), t, ctr);
+					pipe.flush(&db, t);
+					ok &= check(&db, v, &format!("round {} flush", round), t, ctr, fillers);
 				},
 				7 => {
-					db.flush_logs().unwrap();
-					db.enact_logs().unwrap();
-					ok &= check(&db, v, &format!("round {} enact", round), t, ctr);
+					pipe.flush(&db, t);
+					pipe.enact(&db, t, ctr);
+					ok &= check(&db, v, &format!("round {} enact", round), t, ctr, fillers);
 				},
 				8 => {
-					db.clean_logs().unwrap();
-					db.process_reindex().unwrap();
-					ok &= check(&db, v, &format!("round {} clean+reindex", round), t, ctr);
+					pipe.clean(&db);
+					pipe.reindex(&db, ctr);
+					ok &= check(&db, v, &format!("round {} clean+reindex", round), t, ctr, fillers);
 				},
 				_ => {
 					// one more transaction while the queue drains
-					bump(&db, &mut v);
-					ok &= check(&db, v, &format!("round {} extra commit", round), t, ctr);
-					db.process_commits().unwrap();
-					ok &= check(&db, v, &format!("round {} extra commit, one processed", round), t, ctr);
+					bump(&db, &mut v, &mut pipe, t);
+					ok &= check(&db, v, &format!("round {} extra commit", round), t, ctr, fillers);
+					pipe.process(&db, t);
+					ok &= check(&db, v, &format!("round {} extra commit, one processed", round), t, ctr, fillers);
 				},
 			}
 			if !ok {
@@ -891,16 +1246,24 @@ fn deepqueue(seed: u64, root: &Path, t: &mut Trace, ctr: &mut Counters, prop: &s
 			}
 		}
 		for _ in 0..(depth + 4) {
-			step_all(&db).unwrap();
+			pipe.step_all(&db, t, ctr);
 		}
-		ok &= check(&db, v, &format!("round {} drained", round), t, ctr);
+		ok &= check(&db, v, &format!("round {} drained", round), t, ctr, fillers);
 		if !ok {
 			break
 		}
+		pipe.drained(t);
 	}
 	drop(db);
 	let db = Db::open(&options(&dir, false, 1)).expect("reopen");
-	ok &= check(&db, v, "reopened", t, ctr);
+	{
+		let mut content: Vec<(String, String)> = (0..nkeys).map(|i| (kname(5, i as u64), vtok(v, i, spread))).collect();
+		if fillers {
+			content.extend((0..DQ_FILLERS).map(|id| (kname(6, id), format!("f{}_{}", id, filler_value(id).len()))));
+		}
+		pipe.reopened(t, 1, false, content);
+	}
+	ok &= check(&db, v, "reopened", t, ctr, fillers);
 	drop(db);
 	let _ = std::fs::remove_dir_all(&dir);
 	ctr.inc("cases.deepqueue");
